@@ -412,6 +412,11 @@ class _:
         return res
     def coq(mx, r): return '(OArgExt %s %s)' % ('true' if mx else 'false', cq_opt(r, cq_axref))
 
+@op('argext_tuple')
+class _:
+    def run(a, ins, mx, refs): return (a.argmax if mx else a.argmin)(axis=tuple(refs))
+    def coq(mx, refs): raise Unsupported('arg-extremum over a tuple of dimensions is checked by the oracle only')
+
 @op('dropna')
 class _:
     def run(a, ins, r, minvalid): return a.dropna(axis=r, minvalid=minvalid)
